@@ -435,6 +435,18 @@ func mkBvBin(op Op, a, b *Term) *Term {
 		if a == b {
 			return mkBV(w, 0)
 		}
+		// x - c*(x div c)  =  x rem c   (truncated division, as in Go and SMT-LIB)
+		if b.op == opBvMul {
+			for i := 0; i < 2; i++ {
+				c, q := b.args[i], b.args[1-i]
+				if c.isConst() && c.cval != 0 && (q.op == opBvSDiv || q.op == opBvUDiv) && q.args[0] == a && q.args[1] == c {
+					if q.op == opBvSDiv {
+						return mkBvBin(opBvSRem, a, c)
+					}
+					return mkBvBin(opBvURem, a, c)
+				}
+			}
+		}
 	case opBvAnd:
 		if a.isConst() && a.cval == 0 || b.isConst() && b.cval == 0 {
 			return mkBV(w, 0)
